@@ -587,7 +587,7 @@ func parseContractFile(path, pkgPath string) (*ContractFile, error) {
 			case "note":
 				cur.Notes = append(cur.Notes, rest)
 			case "replay":
-				cur.Replay = rest
+				cur.Replay = strings.TrimSpace(cur.Replay + " " + rest)
 			case "opaque":
 				cur.Opaque = append(cur.Opaque, strings.Fields(strings.ReplaceAll(rest, ",", " "))...)
 			case "modifies":
